@@ -438,8 +438,14 @@ def check_C09(ctx):
     for c, first, i in zip(cases, firsts, ires):
         want = "fail:parse:" + first.hex()
         ctx.nontriv(json.dumps(short(c), default=str) + first.hex())
-        if i["status"] != want:
-            ctx.violation("C09:first-error:" + c["cmd"], "%s did not fail with the first malformed line: expected %r got %s %r" % (c["cmd"], first, i["status"][:40], i.get("raw_err", "")[:200]),
+        # the property: a non-zero status and an error that QUOTES the first malformed line (as it stands in the file) and its 1-based line number;
+        # the wording around them is not part of it (the exact message is compared with the model above)
+        mm = re.match(rb'(?:bad syntax on line (\d+), "(.*)"\.|error converting ".*?" to float on line (\d+) "(.*)"\.)$', first, re.S)
+        n, raw = (int(mm.group(1) or mm.group(3)), mm.group(2) if mm.group(1) else mm.group(4)) if mm else (None, None)
+        err = i.get("raw_err", "").encode("utf-8", "surrogateescape")
+        quoted = mm is not None and re.search(rb"line %d(?!\d)" % n, err) is not None and raw in err
+        if not i["status"].startswith("fail") or not quoted:
+            ctx.violation("C09:first-error:" + c["cmd"], "%s did not fail with an error quoting the first malformed line %r and its number %s: got %s %r" % (c["cmd"], raw, n, i["status"][:40], i.get("raw_err", "")[:200]),
                           dict(kind="cli", case=c, impl=i, expected=want))
     return dict(rule="abstract files with k >= 0 malformed lines (no blank before the value / value not a number) planted at random positions among blank lines, comments, notes, CRLF; "
                 "lint and lint --silent output must be exactly the planted lines' messages in file order ('No errors found' iff none), every file-reading command must fail with the first "
